@@ -270,7 +270,7 @@ impl Check for C03 {
         "C03"
     }
     fn rule(&self) -> String {
-        "case = one hostile document (fragment soup over ~80 Markdown fragments incl. CRLF / control / astral characters, character-level mutations of generated documents, hostile-construct documents, size ramps: sibling chains, nesting depth, long lines, many links, empty / whitespace-only) driven in a worker subprocess through from_markdown / to_markdown / Database new+update / paths / search / link_at and, on the real LSP threads with their real stack sizes, didChange, formatting, documentSymbol, workspace/symbol, inlayHint, references, codeAction at every line, definition / prepareRename at sampled positions; events that refute: a panic on any thread (panic hook), a dead worker process (abort, stack overflow: exit status), CPU budget overrun, an unanswered liveness probe; risky ramps run in their own child process; distinct = panic-free documents by structural shape hash + ramp (kind, size) points".into()
+        "case = one hostile document (fragment soup over ~80 Markdown fragments incl. CRLF / control / astral characters, runs of ~27 unusual-but-legal multi-line shapes (items that start with lists or quotes, empty items and lists, headings in items, indented html ...), character-level mutations of generated documents, hostile-construct documents, size ramps: sibling chains, nesting depth, long lines, many links, empty / whitespace-only) driven in a worker subprocess through from_markdown / to_markdown / Database new+update / paths / search / link_at and, on the real LSP threads with their real stack sizes, didChange, formatting, documentSymbol, workspace/symbol, inlayHint, references, codeAction at every line, definition / prepareRename at sampled positions; events that refute: a panic on any thread (panic hook), a dead worker process (abort, stack overflow: exit status), CPU budget overrun, an unanswered liveness probe; risky ramps run in their own child process; distinct = panic-free documents by structural shape hash + ramp (kind, size) points".into()
     }
     fn assumptions(&self) -> Vec<String> {
         vec![
